@@ -194,8 +194,10 @@ pub fn cut_collect_ids(remote_nodes: &mut HashSet<NodeIdentifier>, nodes: HashSe
                         invariant all_peers_valid(peer_nodes@),
 //@ insert body-start
         let ghost mut recompute_requested: bool = false;
-//@ insert after-stmt "discret_services.database.compute_daily_log().await;"
-            proof { recompute_requested = true; }
+//@ rewrite E7 "(discret_services\.database\.compute_daily_log\(\)\.await)\s*([,;])" => "{ \1; proof { recompute_requested = true; } }\2" x1
+//@ insert before-stmt "changed?;"
+        // [recompute_requested_after_failed_synchronisation]{C18} a synchronisation that failed part-way may have committed some days: unless it cleanly reported that nothing changed, the recomputation of the daily logs (which produces the data-changed event) is requested before the failure is reported
+        assert((changed is Ok && changed->Ok_0 == false) || recompute_requested);
 //@ insert before-stmt "Ok(())" #1
         // [recompute_requested_after_synchronised_batch]{C18} a synchronisation that fetched rows or deletion records asks for the recomputation of the daily logs (which produces the data-changed event) before it reports success
         assert(sync_changed_data(remote_room, local_room_def) ==> recompute_requested);
